@@ -22,7 +22,7 @@ import re
 
 from ..core import rule
 from ..linear import Poly
-from ..peval import Builtin, Interp, Namespace, Obj, Opaque, PyExc, Sym
+from ..peval import Builtin, Interp, Namespace, Obj, Opaque, PyExc, Sym, fromp
 from ..srcmodel import AnalysisError
 
 
@@ -275,7 +275,7 @@ def _root(v):
     return v, off, conv
 
 
-@rule("B1e", ["C13", "C04", "C09", "C01", "C05"], "CPU buffer copy primitives, evaluated on an abstract storage for every kind of source: exact extents, no resize, copies vs views")
+@rule("B1e", ["C13", "C04", "C09", "C01", "C05", "C10"], "CPU buffer copy primitives, evaluated on an abstract storage for every kind of source: exact extents, no resize, copies vs views")
 def b1e(cx):
     m = cx.m
     OFF, SOFF, DOFF, NB = (Sym(Poly.atom(x)) for x in ("offset", "source_offset", "dest_offset", "nbytes"))
@@ -283,7 +283,7 @@ def b1e(cx):
     n = 0
     # C05 (the documented layout) rests on ONE of the primitives: the bulk store of number data lists the value's
     # elements in index order (Array._to_buffer hands the value over already permuted to the class's memory order)
-    only_nplike = cx.prop == "C05"
+    only_nplike = cx.prop in ("C05", "C10")  # (C10: a whole array assigned from a numpy value goes through the same bulk store)
     if only_nplike:
         cx.partial = True
     for clsname in ("BufferByteArray", "BufferNumpy"):
@@ -576,7 +576,7 @@ def k1e(cx):
         xbuf = L.buf  # an instance of the CURRENT buffer class on the abstract storage: its primitives are evaluated too
         xbuf.attrs["context"] = ctx
         item = Obj("scalar", {"_c_type": "double", "_dtype": Obj("dtype", {"name": "float64"}, name="dt")}, name="Float64")
-        val = Obj("xoarray", {"_buffer": xbuf, "_offset": OFFV, "_data_offset": DOFF, "_itemtype": item, "_shape": (3,), "_c_type": "Arr3Float64"}, name="value")
+        val = Obj("xoarray", {"_buffer": xbuf, "_offset": OFFV, "_data_offset": DOFF, "_itemtype": item, "_shape": (3,), "_c_type": "Arr3Float64", "_size": fromp(P(DOFF) + Poly.const(24)), "_get_size": Builtin("_get_size", lambda: fromp(P(DOFF) + Poly.const(24)))}, name="value")
         arg = I.call(I.global_lookup("context", "Arg"), [item], {"pointer": True, "name": "p"})
         res = I.explore(lambda: I.call(I.getattr(me, "to_function_arg"), [arg, val], {}), max_paths=8)
         cx.recog(len(res) == 1, fn, f"to_function_arg(xobject array in a {kind} buffer): {len(res)} paths")
@@ -607,7 +607,7 @@ def k1e(cx):
         # an xobject array of ANOTHER element type than the declared one: refused, or typed from the array's own item
         # type (cffi then refuses it) -- never passed as the declared type (seeded C17-c)
         item32 = Obj("scalar", {"_c_type": "int32_t", "_dtype": Obj("dtype", {"name": "int32"}, name="dt32")}, name="Int32")
-        val32 = Obj("xoarray", {"_buffer": xbuf, "_offset": OFFV, "_data_offset": DOFF, "_itemtype": item32, "_shape": (3,), "_c_type": "Arr3Int32"}, name="value32")
+        val32 = Obj("xoarray", {"_buffer": xbuf, "_offset": OFFV, "_data_offset": DOFF, "_itemtype": item32, "_shape": (3,), "_c_type": "Arr3Int32", "_size": fromp(P(DOFF) + Poly.const(12)), "_get_size": Builtin("_get_size", lambda: fromp(P(DOFF) + Poly.const(12)))}, name="value32")
         res = I.explore(lambda: I.call(I.getattr(me, "to_function_arg"), [arg, val32], {}), max_paths=8)
         cx.recog(len(res) == 1, fn, f"to_function_arg(xobject Int32 array for double*): {len(res)} paths")
         r = res[0]
